@@ -241,9 +241,19 @@ class Scenario:
             w.concurrent, keep = 5, w.concurrent
             FakeDatetime._now = self.ref_now
             err = None
+            # a failed call, unlike a kill, leaves the client process alive: in half of the cases the SAME Repository object
+            # (a service / library user) issues the follow-up commands, otherwise a fresh one (the CLI)
+            same_object = r.random() < 0.5
+            if same_object:
+                import asyncio
+                R.PERSISTENT_LOOP = asyncio.new_event_loop()
+            rep = None
             try:
                 with C.time_limit(25):
-                    self.run_command(K.repo_on(w, self.ui, be))
+                    rep = K.repo_on(w, self.ui, be)
+                    if same_object:
+                        K.keep(rep)
+                    self.run_command(rep)
             except C.Hang:
                 self.viol('order:command-hangs', f'{self.kind} under a randomised completion order did not return within 25 s', {'kind': 'scenario', 'idx': self.idx, 'tier': self.tier, 'part': 'order'})
                 raise
@@ -428,12 +438,24 @@ class Scenario:
             w.backend = be
             FakeDatetime._now = self.ref_now
             err = None
+            # a failed call, unlike a kill, leaves the client process alive: in half of the cases the SAME Repository object
+            # (a service / library user) issues the follow-up commands, otherwise a fresh one (the CLI)
+            same_object = r.random() < 0.5
+            if same_object:
+                import asyncio
+                R.PERSISTENT_LOOP = asyncio.new_event_loop()
+            rep = None
             try:
                 with C.time_limit(25):
-                    self.run_command(K.repo_on(w, self.ui, be))
+                    rep = K.repo_on(w, self.ui, be)
+                    if same_object:
+                        K.keep(rep)
+                    self.run_command(rep)
             except C.Hang:
                 self.viol('fault:command-hangs', f'{self.kind} with a permanently failing {state["failed"]} (call #{i}) did not return within 25 s: a failed call must end the command with an error',
                           {'kind': 'scenario', 'idx': self.idx, 'tier': self.tier, 'part': 'fault', 'call': i})
+                del K._KEPT[:]
+                R.PERSISTENT_LOOP = None
                 raise
             except Exception as e:  # noqa: BLE001
                 err = type(e).__name__
@@ -473,11 +495,48 @@ class Scenario:
                 st3 = w.abstract_store(self.others)
                 self.res['model'].append(({'op': 'repo.step', 'enc': self.enc, 'store': st, 'cmd': cres['op']},
                                           {'store': canon_store(st3), 'error': cres['error']}, 'step', rp))
+                # "the repository stays fully usable": the command is issued again (now every call succeeds) and must do its job
+                who = 'the same Repository object' if same_object else 'a fresh Repository object'
+                if rep is None:
+                    same_object, who = False, 'a fresh Repository object'
+                    K.close_persistent_loop()
+                rep2 = rep if same_object else w.repo(self.ui)
+                sid0, names0 = w.next_sid, dict(w.snap_names)
+                try:
+                    if self.kind == 'snapshot':
+                        try:
+                            snap_r = w.snapshot(self.ui, self.fileset, repo=rep2)
+                        except Exception as e:  # noqa: BLE001
+                            self.viol('fault:retry-fails', f'snapshot issued again through {who} after a permanently failing {label} fails: {type(e).__name__}: {str(e)[:80]}', rp)
+                        else:
+                            d = w.snap_by_sid[snap_r['sid']]
+                            e3, tree3 = w.restore(self.ui, snapshot_regex='^' + d['name'] + '$')
+                            if e3 is not None or tree3 != d['truth']:
+                                self.viol('fault:retried-snapshot-incomplete', f'snapshot issued again through {who} after a permanently failing {label} is visible but does not restore '
+                                          f'completely ({e3 or "content differs"})', rp)
+                    else:
+                        try:
+                            self.run_command(rep2)
+                        except Exception as e:  # noqa: BLE001
+                            if not (self.kind == 'delete' and type(e).__name__ == 'ReplicatError'):      # the failed delete may already have removed the snapshots it names
+                                self.viol('fault:retry-fails', f'{self.kind} issued again through {who} after a permanently failing {label} fails: {type(e).__name__}: {str(e)[:80]}', rp)
+                        for s2, d in w.snap_by_sid.items():
+                            if d['location'] in be.objects:
+                                owner = next(j for j, uu in enumerate(w.users) if uu.keyid == d['owner'] and uu.fam == d['fam'])
+                                e2, tree = w.restore(owner, snapshot_regex='^' + d['name'] + '$')
+                                if e2 is not None or tree != d['truth']:
+                                    self.viol('fault:visible-snapshot-incomplete', f'{self.kind} issued again through {who} after a permanently failing {label}: visible snapshot #{s2} does not '
+                                              f'restore completely ({e2 or "content differs"})', rp)
+                finally:
+                    for s2 in [x for x in w.snap_by_sid if x >= sid0]:
+                        del w.snap_by_sid[s2]
+                    w.next_sid, w.snap_names = sid0, names0
                 self.res['cases'].append((dict(self.summary, part='fault', failed=failed[0], call=i, done=len(muts)), failed[0] in ('put', 'del')))
-                self.res['dist'] += ['c:fault:' + failed[0], 'c:cmd:' + self.kind]
+                self.res['dist'] += ['c:fault:' + failed[0], 'c:cmd:' + self.kind, 'c:retry-through:' + ('same-object' if same_object else 'fresh-object')]
             finally:
                 self.reset_world_snapshot_identity(saved)
                 w.backend = self.mem
+                K.close_persistent_loop()
 
 
 def run_scenario(arg):
